@@ -128,11 +128,13 @@ Lemma free_loop_spec fuel : forall bs chain pos,
     (k <= length chain)%nat /\
     pool_free_loop fuel bs (tl_of chain) pos =
       (deact bs (firstn k chain), tl_of (skipn k chain), pos - sumz (clens bs (firstn k chain))) /\
-    0 <= pos - sumz (clens bs (firstn k chain)).
+    0 <= pos - sumz (clens bs (firstn k chain)) /\
+    (* the loop stops at a block that the freed bytes do not cover *)
+    (match skipn k chain with [] => True | i :: _ => pos - sumz (clens bs (firstn k chain)) < slen (bbuf (blk bs i)) end).
 Proof.
   induction fuel as [|f IH]; intros bs chain pos ND Rg Lk Ln Fu Hp; [lia|].
   destruct chain as [|i rest].
-  - exists O. cbn. split; [lia|]. split; [f_equal; lia|lia].
+  - exists O. cbn. split; [lia|]. split; [f_equal; lia|split; [lia|exact I]].
   - cbn [pool_free_loop tl_of].
     replace (Z.of_nat i + 1 =? 0) with false by (symmetry; apply Z.eqb_neq; lia). cbn [negb andb].
     replace (Z.of_nat i + 1 - 1) with (Z.of_nat i) by lia.
@@ -145,7 +147,7 @@ Proof.
       assert (Htl : bnext (blk bs i) = tl_of rest).
       { cbn [linked] in Lk. destruct rest as [|j r]; [exact Lk|destruct Lk as [L1 _]; exact L1]. }
       rewrite Htl.
-      destruct (IH bs' rest (pos - slen (bbuf (blk bs i))) ND') as (k & Hk & E & Hpos).
+      destruct (IH bs' rest (pos - slen (bbuf (blk bs i))) ND') as (k & Hk & E & Hpos & Hstop).
       * intros j Hj. unfold bs'. rewrite setb_length. apply Rg. right. exact Hj.
       * apply (linked_ext bs bs'); [exact Hother|]. eapply linked_tail; exact Lk.
       * intros j Hj. rewrite Hother by exact Hj. apply Ln. right. exact Hj.
@@ -154,11 +156,14 @@ Proof.
       * exists (S k). split; [cbn [length]; lia|].
         assert (Hc : clens bs' (firstn k rest) = clens bs (firstn k rest)).
         { apply clens_ext. intros j Hj. rewrite Hother; [reflexivity|]. eapply firstn_In_sub. exact Hj. }
-        rewrite Hc in E, Hpos. split.
+        rewrite Hc in E, Hpos, Hstop. split; [|split].
         -- rewrite E. cbn [firstn deact skipn clens map sumz fold_right]. fold bs'.
            f_equal. unfold sumz, clens. lia.
         -- cbn [firstn clens map sumz fold_right]. unfold sumz, clens in *. lia.
-    + exists O. cbn [firstn deact skipn clens map sumz fold_right tl_of]. split; [lia|]. split; [f_equal; lia|lia].
+        -- cbn [firstn skipn clens map sumz fold_right]. destruct (skipn k rest) as [|j r'] eqn:Sk; [exact I|].
+           assert (Hj : In j rest) by (eapply skipn_In_sub; rewrite Sk; left; reflexivity).
+           rewrite (Hother j Hj) in Hstop. unfold sumz, clens in *. lia.
+    + exists O. cbn [firstn deact skipn clens map sumz fold_right tl_of]. b2p. split; [lia|]. split; [f_equal; lia|split; lia].
 Qed.
 
 (* ---- list facts about a NoDup chain split into a prefix and the rest ------------------------- *)
@@ -225,15 +230,16 @@ Lemma pool_free_prep p chain n : prep p chain -> 0 <= ppos p + n ->
     prep (pool_free p n) (skipn k chain) /\
     blocks (pool_free p n) = deact (blocks p) (firstn k chain) /\
     ppos (pool_free p n) = ppos p + n - sumz (clens (blocks p) (firstn k chain)) /\
-    0 <= ppos (pool_free p n).
+    0 <= ppos (pool_free p n) /\
+    (match skipn k chain with [] => True | i :: _ => ppos (pool_free p n) < slen (bbuf (blk (blocks p) i)) end).
 Proof.
   intros P Hp. destruct P as [ND Rg Act Lk En Ln].
   assert (Hlen : (length chain <= length (blocks p))%nat) by (apply chain_length_bound; assumption).
   assert (Htl : ptail p = tl_of chain) by (destruct chain; cbn in En; destruct En; assumption).
   destruct (free_loop_spec (S (length (blocks p))) (blocks p) chain (ppos p + n) ND Rg Lk
-              (fun i Hi => Ln i (Rg i Hi)) ltac:(lia) Hp) as (k & Hk & E & Hpos).
+              (fun i Hi => Ln i (Rg i Hi)) ltac:(lia) Hp) as (k & Hk & E & Hpos & Hstop).
   exists k. split; [exact Hk|]. unfold pool_free. rewrite Htl, E. cbn [blocks ppos].
-  split; [|split; [reflexivity|split; [reflexivity|exact Hpos]]].
+  split; [|split; [reflexivity|split; [reflexivity|split; [exact Hpos|exact Hstop]]]].
   assert (NDf : NoDup (firstn k chain)).
   { rewrite <- (firstn_skipn k chain) in ND. apply NoDup_app_remove_r in ND. exact ND. }
   assert (Rf : forall j, In j (firstn k chain) -> (j < length (blocks p))%nat) by (intros j Hj; apply Rg; eapply firstn_In_sub; exact Hj).
@@ -398,7 +404,8 @@ Lemma pool_swap_cases h p chain old size h1 p1 nb :
      p1 = put_pool p (blocks p) sw old /\ nb = mkSl (sid (bbuf (blk (blocks p) sw))) 0) \/
   (h1 = h ++ [zeros size] /\
      p1 = put_pool p (blocks p ++ [mkBlock (mkSl (length h) 0) 0 true]) (length (blocks p)) old /\
-     nb = mkSl (length h) 0).
+     nb = mkSl (length h) 0 /\
+     ~ (ptail p = 0 /\ slen old <= ppos p /\ size <= hcap h (sid old))).
 Proof.
   intros P H. unfold pool_swap in H.
   destruct (find_free h (blocks p) size 0) as [sw|] eqn:F.
@@ -416,5 +423,7 @@ Proof.
       auto 10.
     + right. right. unfold len in H. rewrite nthb_of_nat in H. rewrite put_pool_eq in H.
       unfold blk in H. rewrite app_nth2 in H by lia. rewrite Nat.sub_diag in H. cbn [nth bbuf sid] in H.
-      inversion H; subst. auto.
+      inversion H; subst. split; [reflexivity|]. split; [reflexivity|]. split; [reflexivity|].
+      intros (X1 & X2 & X3). rewrite X1 in C. cbn [Z.eqb andb] in C.
+      apply andb_false_iff in C. destruct C as [C|C]; b2p; lia.
 Qed.
